@@ -153,7 +153,8 @@ def optimize_prec_assignment(model: MPS,
                 # Update the layer with the best configuration.
                 # Modify only the alpha parameter of each layer, and not the theta_alpha, to avoid
                 # any conflict in the case of parallel branches.
-                new_alpha = _reassign_precisions(best_theta_alpha_array, layer.w_mps_quantizer.alpha)
+                new_alpha = _reassign_precisions(best_theta_alpha_array, layer.w_mps_quantizer.alpha,
+                                                 layer.w_mps_quantizer.precision)
                 layer.w_mps_quantizer.alpha.data = new_alpha.clone()
 
             elif model.full_cost:
@@ -193,59 +194,51 @@ def _compute_cost(model, layer, w_theta_alpha_array, cost_fn_map, lname, node):
     return config_cost
 
 
-def _reassign_precisions(best, scores):
-    """Reassign the precisions of the channels based on the given alpha values.
-    The reassignment algorithm is greedy, and tries to assign to each precision the
-    channels which have the highest alpha value for that precision.
+def _reassign_precisions(best, scores, precisions=None):
+    """Reassign the precisions of the channels based on the given alpha values, so that each
+    precision gets the number of channels specified in `best`.
+    The reassignment algorithm is greedy: each precision keeps (up to its target count) the
+    channels currently assigned to it, and the remaining ones are moved to the closest higher
+    precision that needs channels. Whenever there is a choice, the channels which have the
+    highest alpha value for a precision are assigned to it.
+    `precisions` contains the bit-width of each row of `scores` (the rows are assumed to be in
+    increasing order of bit-width if it is not given).
     """
     num_precisions, num_channels = scores.size()
+    if precisions is None:
+        order = list(range(num_precisions))
+    else:
+        order = torch.argsort(torch.as_tensor(precisions), stable=True).tolist()
+    targets = [int(round(best[prec].item())) for prec in range(num_precisions)]
 
     # Extract the current assignments (precision with the highest alpha for each channel).
-    # Then, sort the channels for each precision by their alpha values
     current_assignment = torch.argmax(scores, dim=0)
-    sorted_indices = torch.argsort(scores, dim=1, descending=True)
-    new_assignment = current_assignment.clone()  # Empty list to store new assignments
+    new_assignment = torch.full_like(current_assignment, -1)  # -1 marks a channel as unassigned
 
-    # Enforce the new cardinality
-    for prec in range(num_precisions):
-        # Get the number of channels that should be assigned to this precision
-        target_count = int(best[prec].item())
+    def top_channels(channels, prec, count):
+        # the (at most) `count` channels, among the given ones, with the highest alpha for `prec`
+        idx = torch.argsort(scores[prec][channels], descending=True, stable=True)[:max(count, 0)]
+        return channels[idx]
 
-        # If no channels must have this precision, reassign all the channels at the
-        # current precision.
-        if target_count == 0:
-            prec_indices = (current_assignment == prec).nonzero(as_tuple=True)[0]
-            new_assignment[prec_indices] = -1  # Temporarily mark as unassigned
-            continue
-
-        # If at least one channel should have the current precision, assign the top
-        # 'target_count' channels to this precision.
-        # First, get the indices of channels currently assigned to this precision and
-        # the top 'target_count' channels for this precision based on the alpha values
+    # Enforce the new cardinality, from the lowest to the highest precision: each precision keeps
+    # its best channels, then takes the ones released by the lower precisions.
+    released = torch.tensor([], dtype=torch.long, device=scores.device)
+    for prec in order:
         prec_indices = (current_assignment == prec).nonzero(as_tuple=True)[0]
-        top_indices = sorted_indices[prec][:target_count]
+        new_assignment[top_channels(prec_indices, prec, targets[prec])] = prec
+        channels_needed = targets[prec] - (new_assignment == prec).sum().item()
+        if channels_needed > 0:
+            new_assignment[top_channels(released, prec, channels_needed)] = prec
+            released = released[new_assignment[released] == -1]
+        released = torch.cat([released, prec_indices[new_assignment[prec_indices] == -1]])
 
-        # Assign those top channels to this precision
-        new_assignment[top_indices] = prec
-
-        # Reassign the remaining channels
-        excess_channels = prec_indices[target_count:]
-        if len(excess_channels) > 0:
-            new_assignment[excess_channels] = -1  # Temporarily mark as unassigned
-
-    # Reassign channels marked as unassigned to precisions that need more channels
-    for prec in range(num_precisions):
-        target_count = int(best[prec].item())
-        current_count = (new_assignment == prec).sum().item()
-
-        # If there are not enough channels assigned to this precision, use the unassigned channels
-        if current_count < target_count:
-            unassigned_channels = (new_assignment == -1).nonzero(as_tuple=True)[0]
-            channels_needed = target_count - current_count
-
-            # Get the top 'channels_needed' channels for this precision and reassign them
-            top_unassigned = sorted_indices[prec][torch.isin(sorted_indices[prec], unassigned_channels)][:channels_needed]
-            new_assignment[top_unassigned] = prec
+    # If the new counts cannot be obtained only by moving channels to a higher precision, the
+    # precisions that still need channels use the ones that remained unassigned
+    for prec in order:
+        channels_needed = targets[prec] - (new_assignment == prec).sum().item()
+        if channels_needed > 0:
+            new_assignment[top_channels(released, prec, channels_needed)] = prec
+            released = released[new_assignment[released] == -1]
 
     # Create the binary assignment matrix, that will replace the original alpha matrix
     binary_matrix = torch.zeros_like(scores)
